@@ -186,6 +186,7 @@ def gen_set(rng):
         ids = idb.hex()
         nfields = rng.randrange(0, 5)
         chain = False
+        implicit_last = False
         if typ[0] in 'rw' and len(idb) >= 1 and rng.random() < 0.12:
             other = idb[:-1] + bytes([idb[-1] ^ 0x55])
             ln = rng.choice([None, 2, 4])
@@ -196,12 +197,19 @@ def gen_set(rng):
             continue
         used.add(key)
         fields = [gen_field(rng, k, templates) for k in range(nfields)]
+        if chain and rng.random() < 0.5:
+            # explicit length for the first part, the last part takes the rest: one payload field longer than the explicit part
+            ln1 = rng.choice([2, 4, 8])
+            ids = '%s:%d;%s' % (idb.hex(), ln1, other.hex())
+            fields = [['pl', '', '%s:%d' % (rng.choice(['HEX', 'STR']), ln1 + rng.randrange(1, 17)), '', '', '']]
+            nfields = 1
+            implicit_last = True
         comment = rtext(rng, 16) if rng.random() < 0.5 else ''
         cols = [typ, circuit, name, comment, qq, zz, pbsb, ids]
         for f in fields:
             cols += f
         msgs.append({'line': ','.join(ref_write_field(c) for c in cols), 'type': typ, 'circuit': circuit, 'name': name, 'qq': qq, 'zz': zz,
-                     'pbsb': pbsb, 'ids': ids, 'comment': comment, 'chain': chain, 'nfields': nfields})
+                     'pbsb': pbsb, 'ids': ids, 'comment': comment, 'chain': chain, 'nfields': nfields, 'implicit_last': implicit_last})
     return tlines, msgs
 
 
@@ -255,6 +263,17 @@ def defs_shard(args):
         # known dumpString defect: an unquoted dumped field with two adjacent quotes inside (see known_findings.json)
         sfx = ':raw-doubled-quote' if re.search(r'(^|,)[^",\n][^,\n]*""', dump1, re.M) else ''
         if lo[1] != '0':
+            # known defect: a chain whose last part had no explicit length is dumped with the length of the part before it,
+            # which then limits the payload on reload (see known_findings.json); recognised by the failing dump line
+            if not sfx and len(lo) > 3 and ':' in unesc(lo[3]):
+                try:
+                    bad = dump1.split('\n')[int(unesc(lo[3]).split(':')[1]) - 1]
+                    cols = bad.split(',')
+                    src = [m for m in accepted if m['name'] == cols[2] and (cols[1] == m['circuit'] or cols[1].startswith(m['circuit'] + '.'))]
+                    if src and src[0].get('implicit_last') and ('argument value out of valid range, field type' in unesc(lo[3]) or 'invalid position, data length' in unesc(lo[3])):
+                        sfx = ':chain-implicit-last-length'
+                except (ValueError, IndexError):
+                    pass
             viol.append(('dump-does-not-reload' + sfx, '%s: loading the dump fails with %s %s; dump:\n%s' % (desc, lo[1], unesc(lo[3]) if len(lo) > 3 else '', '\n'.join(dump1.split('\n')[int(unesc(lo[3]).split(':')[1]) - 1:][:1]) if len(lo) > 3 and ':' in lo[3] else dump1[:600])))
             continue
         dump2 = unesc(outl2[3][1]) if len(outl2[3]) > 1 else ''
